@@ -16,3 +16,12 @@ mod literal;
 mod matcher;
 mod non_matching;
 mod strip;
+
+/// Verification hook: the HIR produced by the regex-syntax translator for the
+/// most recent `RegexMatcherBuilder::build*` call on this thread (before the
+/// ban check and line terminator stripping), or `None` if the fixed-strings
+/// shortcut was taken or translation failed. Taking it clears it.
+#[cfg(ripgrep_verif)]
+pub fn verif_take_translated_hir() -> Option<regex_syntax::hir::Hir> {
+    config::verif::take_translated()
+}
